@@ -8,6 +8,7 @@ CONSTANTS
   Faults <- AllFaults
   MaxFaults = 2
   Stepped = FALSE
+  Dir = "fwd"
 CHECK_DEADLOCK FALSE
 INVARIANTS
   TypeOK
